@@ -7,10 +7,25 @@ import json, os, shutil, subprocess, sys
 VERIF = os.path.dirname(os.path.dirname(os.path.abspath(__file__)))
 
 
+def _needs(inc, letter):
+    f = os.path.join(inc, "needs.json")
+    if os.path.exists(f):
+        try:
+            return json.load(open(f)).get(letter, "see notes.md")
+        except Exception:
+            pass
+    return "see notes.md (section %s)" % letter
+
+
 def main():
     inc, letter, prop = sys.argv[1:4]
     rest = sys.argv[4:]
-    name = "%s-%s" % (prop, letter)
+    suffix = ""
+    if "--suffix" in rest:
+        i = rest.index("--suffix")
+        suffix = rest[i + 1]
+        del rest[i:i + 2]
+    name = "%s-%s%s" % (prop, suffix, letter)
     dst = os.path.join(VERIF, "seeded", name)
     os.makedirs(dst, exist_ok=True)
     shutil.copy(os.path.join(inc, "%s.patch" % letter), os.path.join(dst, "patch.diff"))
@@ -35,7 +50,7 @@ def main():
         "name": name,
         "breaks_property": prop,
         "origin": "independent sub-agent given only the property text and a scratch worktree",
-        "needs_to_manifest": "see notes.md (section %s)" % letter,
+        "needs_to_manifest": _needs(inc, letter),
         "confirmed": {
             "base_commit": head,
             "patch_applies": res.get("apply") == 0,
